@@ -6,7 +6,7 @@
      strop_id_gen    : a valid identifier that is not reserved, matches no reserved pattern (and, when the
                        configuration encodes double underscores, contains none) is returned unchanged
      strop_total     : strop only returns Ok / RuntimeError / ValueError (by construction), 'all' -> ValueError
-     strop_cached_transparent : the lru_cache around strop never changes a result.                       *)
+     (cache isolation: StropThmCache.v; totality: StropThmTotal.v)                                      *)
 From Verif Require Import Strop StropThmRe StropThmEnc.
 Open Scope N_scope.
 
